@@ -503,8 +503,104 @@ def run_doc(case, ctx):
                         % (case["file"], case["line"], path, value, type(e).__name__, e), signature="doc:" + path)
 
 
+# ---------------------------------------------------------------------------------------
+# Indirect accessors: Python properties that locate the C bytes they read/write by a computed lookup
+# (Variation.lrescale searches sim.var_config, Variation.particles computes an address).  The layout sub
+# cannot see them; this sub enumerates every ordering of variation kinds up to length 3 x N_real in {2,3}.
+
+VAR_KINDS = ["full", "tp0", "tp1", "second"]
+
+
+def accessor_cases(tier):
+    import itertools
+    out = []
+    for nreal in (2, 3):
+        for n in (1, 2, 3):
+            for combo in itertools.product(VAR_KINDS, repeat=n):
+                out.append({"nreal": nreal, "kinds": list(combo)})
+    return out
+
+
+def run_accessor(case, ctx):
+    import ctypes
+    import warnings
+    import rebound
+    warnings.simplefilter("ignore")
+    sim = rebound.Simulation()
+    sim.add(m=1.0)
+    for i in range(1, case["nreal"]):
+        sim.add(m=1e-3, a=float(i), e=0.01 * i)
+    sim.integrator = "ias15"
+    handles = []
+    firsts = []
+    for kind in case["kinds"]:
+        if kind == "full":
+            v = sim.add_variation()
+            firsts.append(v)
+        elif kind == "tp0":
+            v = sim.add_variation(testparticle=case["nreal"] - 1)
+        elif kind == "tp1":
+            v = sim.add_variation(testparticle=1 if case["nreal"] > 2 else case["nreal"] - 1)
+        else:
+            if not firsts:
+                v = sim.add_variation()
+                firsts.append(v)
+                handles.append(v)
+            v = sim.add_variation(order=2, first_order=firsts[0], first_order_2=firsts[-1])
+        handles.append(v)
+    ncfg = sim.N_var_config
+    if ncfg != len(handles):
+        raise Violation("N_var_config=%d after adding %d variations" % (ncfg, len(handles)))
+    psize = ctypes.sizeof(rebound.Particle)
+    base = ctypes.addressof(sim._particles.contents)
+    nreal = sim.N - sim.N_var
+    for j, v in enumerate(handles):
+        # which C configuration describes this handle?  the one with the same first-particle index
+        owners = [i for i in range(ncfg) if sim.var_config[i].index == v.index]
+        if owners != [j]:
+            raise Violation("variation handle %d has index %d; configurations with that index: %r" % (j, v.index, owners))
+        for obj, what in ((v, "handle returned by add_variation"), (sim.var_config[j], "sim.var_config[%d]" % j)):
+            val = 10.0 + j
+            obj.lrescale = val
+            got = [sim.var_config[i]._lrescale for i in range(ncfg)]
+            for i in range(ncfg):
+                expect = val if i == j else got[i]
+                if i == j and got[i] != val:
+                    raise Violation("writing lrescale through %s (configuration %d of %r) did not reach the C member "
+                                    "(C value %r)" % (what, j, case["kinds"], got[i]), kinds=case["kinds"])
+            for i in range(ncfg):      # reset and make sure nobody else was touched
+                pass
+            if obj.lrescale != sim.var_config[j]._lrescale:
+                raise Violation("reading lrescale through %s gives %r, C member of configuration %d holds %r"
+                                % (what, obj.lrescale, j, sim.var_config[j]._lrescale), kinds=case["kinds"])
+            # all other configurations keep distinct sentinel values
+            for i in range(ncfg):
+                if i != j:
+                    sim.var_config[i]._lrescale = -100.0 - i
+            obj.lrescale = 77.0 + j
+            for i in range(ncfg):
+                c = sim.var_config[i]._lrescale
+                if i == j and c != 77.0 + j:
+                    raise Violation("writing lrescale through %s did not change configuration %d (kinds %r)" % (what, j, case["kinds"]))
+                if i != j and c != -100.0 - i:
+                    raise Violation("writing lrescale through %s (configuration %d) changed configuration %d (kinds %r)"
+                                    % (what, j, i, case["kinds"]), kinds=case["kinds"])
+            # particles view: address and length
+            ps = obj.particles
+            n_expected = 1 if obj.testparticle >= 0 else nreal
+            if len(ps) != n_expected:
+                raise Violation("%s.particles has %d entries, expected %d" % (what, len(ps), n_expected))
+            if ctypes.addressof(ps) != base + obj.index * psize:
+                raise Violation("%s.particles does not start at particle index %d" % (what, obj.index))
+    ctx.cls("n%d" % len(case["kinds"]))
+    if any(k.startswith("tp") for k in case["kinds"][:-1]):
+        ctx.cls("testparticle_variation_not_last")
+    ctx.nontrivial()
+
+
 def subs(tier):
     return [
+        Sub("accessors", run_accessor, cases=accessor_cases, exhaustive=True, shards_quick=2, shards_thorough=2),
         Sub("layout", run_layout, cases=layout_cases, exhaustive=True, shards_quick=2, shards_thorough=2, journal=False),
         Sub("options", run_option, cases=option_cases, exhaustive=True, shards_quick=2, shards_thorough=2),
         Sub("docs", run_doc, cases=doc_cases, exhaustive=True, shards_quick=1, shards_thorough=1),
